@@ -156,18 +156,32 @@ func runCase(e *engine, c Case) implResult {
 var curNow = time.Now().Unix()
 
 func evalCases(cases []Case, o *common.Options, rep *common.Report) error {
-	curNow = time.Now().Unix()
-	var lines []string
-	var idx []int
+	// 1. the implementation, case by case; entry points that call time.Now() themselves get their timestamps
+	//    relative to `curNow`, captured immediately before the call and remembered for the model line
+	//    (offsets stay 20 s away from the +-30 s validity edge).
+	results := make([]implResult, len(cases))
+	nows := make([]int64, len(cases))
 	for i, c := range cases {
 		e := findEngine(c.Entry)
 		if e == nil {
 			return fmt.Errorf("unknown entry %q", c.Entry)
 		}
-		if e.line != nil && o.Driver != "" {
-			if l := e.line(c); l != "" {
-				lines = append(lines, l)
-				idx = append(idx, i)
+		curNow = time.Now().Unix()
+		nows[i] = curNow
+		results[i] = runCase(e, c)
+	}
+	// 2. the model, one protocol line per case
+	var lines []string
+	var idx []int
+	if o.Driver != "" {
+		for i, c := range cases {
+			e := findEngine(c.Entry)
+			if e.line != nil {
+				curNow = nows[i]
+				if l := e.line(c); l != "" {
+					lines = append(lines, l)
+					idx = append(idx, i)
+				}
 			}
 		}
 	}
@@ -181,16 +195,12 @@ func evalCases(cases []Case, o *common.Options, rep *common.Report) error {
 			model[i] = out[k]
 		}
 	}
+	// 3. compare + oracle
 	for i, c := range cases {
-		e := findEngine(c.Entry)
-		res := runCase(e, c)
+		res := results[i]
 		class := res.out
-		if j := strings.IndexByte(class, ' '); j > 0 {
-			if strings.HasPrefix(class, "err ") {
-				class = res.out
-			} else {
-				class = class[:j]
-			}
+		if j := strings.IndexByte(class, ' '); j > 0 && !strings.HasPrefix(class, "err ") {
+			class = class[:j]
 		}
 		rep.Case(c.Entry+"|"+c.Hex+"|"+fmt.Sprint(c.PS, c.PL, c.Now, c.Flag, c.Flag2, c.N, c.Chunks)+routerSig(c.Router), class != "panic")
 		rep.Count(c.Entry + ":" + class)
@@ -204,7 +214,8 @@ func evalCases(cases []Case, o *common.Options, rep *common.Report) error {
 		}
 		if m, ok := model[i]; ok {
 			if m == "bad-op" {
-				return fmt.Errorf("driver rejected line of case %d (%s): %q", i, c.Entry, e.line(c))
+				curNow = nows[i]
+				return fmt.Errorf("driver rejected line of case %d (%s): %.300q", i, c.Entry, findEngine(c.Entry).line(c))
 			}
 			if m != res.out {
 				rep.Diverge(common.Divergence{Engine: c.Entry, Case: c, Impl: res.out, Model: m, Note: res.site})
